@@ -2951,7 +2951,13 @@ def _written_locations(sm):
     import re
     out = set()
     for it in sm.items:
-        if it.kind != "effect" or it.head.startswith("call "):
+        if it.kind == "effect" and it.head.startswith("call "):
+            # an in-place addition to a container the object holds: self._seen.add(x), self._memo.update(..)
+            m = re.match(r"^call ((?:self|cls|class_)(?:\.[A-Za-z_][A-Za-z_0-9]*)+)\.(add|update|setdefault|append|extend|insert)\(", it.head)
+            if m:
+                out.add(m.group(1) + "[]")
+            continue
+        if it.kind != "effect":
             continue
         head = it.head.split(" in loop")[0].split(" after ")[0]
         m = re.match(r"^([A-Za-z_][A-Za-z_0-9]*(?:\.[A-Za-z_][A-Za-z_0-9]*)*)(\[.*?\])? = ", head)
@@ -3002,6 +3008,13 @@ def new_state(code, ref, func_name="", ref_tree=None):
     return sorted(new)
 
 
+def _sat_formula(f):
+    try:
+        return not _equiv(f, False)
+    except Exception:
+        return True
+
+
 def stale_memo(sm, new_locs):
     """of the locations a function newly keeps between calls, those that can go STALE by the look of the code: some exit returns
     what is stored there under a condition that reads nothing of the object's state (it tests only that the memo is filled, or
@@ -3023,24 +3036,45 @@ def stale_memo(sm, new_locs):
             # a method called on the memo itself (self._memo.get) is not a read of other state
             reads.add(path)
         return reads
+    from .ct import fmt_formula
     for loc in sorted(loc_attrs):
-        stores = [it for it in sm.items if it.kind == "effect" and (it.head.startswith(loc + " = ") or it.head.startswith(loc + "["))]
+        attr = loc.rsplit(".", 1)[-1]
+        spellings = (loc, "getattr(%s, '%s'" % (loc.rsplit(".", 1)[0], attr))
+
+        def mentions(text):
+            return any(sp in text for sp in spellings)
+        # what is put there: plain stores, item stores, and in-place additions (a set of `known misses` is filled with .add)
+        stores = [it for it in sm.items if it.kind == "effect" and (it.head.startswith(loc + " = ") or it.head.startswith(loc + "[") or it.head.startswith("call %s." % loc))]
         if not stores:
             continue
         computed_from = set()
         for it in stores:
-            v = it.head.split(" = ", 1)[1] if " = " in it.head else ""
+            v = it.head.split(" = ", 1)[1] if " = " in it.head and not it.head.startswith("call ") else it.head
             v = v.split(" in loop")[0].split(" after ")[0]
             computed_from |= state_reads(v, {loc})
+            computed_from |= state_reads(fmt_formula(it.cond) if it.cond not in (True, False) else "", {loc})
         if not computed_from:
             continue
-        from .ct import fmt_formula
+        miss = f_or(*[it.cond for it in stores])         # the paths on which the memo is (re)filled
+        hide = lambda t: t.replace("getattr(%s, '%s'" % (loc.rsplit(".", 1)[0], attr), "getattr(_memo")
         for it in sm.items:
-            if it.kind != "exit" or not it.head.startswith("return ") or loc not in it.head:
+            if it.kind != "exit" or not it.head.startswith("return "):
                 continue
             cond_text = fmt_formula(it.cond) if it.cond not in (True, False) else ""
-            if not state_reads(cond_text, {loc}):
-                out.append("%s is returned when `%s`, which reads nothing of the object's state, and was computed from %s" % (loc, cond_text[:80] or "always", ", ".join(sorted(computed_from))[:80]))
+            if not (mentions(it.head) or mentions(cond_text)):
+                continue
+            hit = f_and(it.cond, f_not(miss)) if miss not in (True, False) else it.cond      # ... and those on which it is handed out as it is
+            if hit is False or not _sat_formula(hit):
+                continue
+            # the tests that tell a hit from a miss: atoms that hold on one and fail on the other
+            atoms = [a for a in (gi.f_opaques(hit) if hit not in (True, False) else []) if isinstance(a, str)]
+            telling = [a for a in atoms if (entails(hit, ("op", a)) and miss not in (True, False) and entails(miss, ("not", ("op", a)))) or
+                       (entails(hit, ("not", ("op", a))) and miss not in (True, False) and entails(miss, ("op", a)))]
+            if not telling:
+                telling = [a for a in atoms if mentions(a)]
+            if telling and not any(state_reads(hide(a), {loc}) for a in telling) and not state_reads(hide(it.head[7:]), {loc}):
+                out.append("the result is decided by %s alone (`%s` when `%s`: no test that tells a hit from a miss reads anything else of the object's state), while what is kept there depends on %s"
+                           % (loc, it.head[:40], " and ".join(telling)[:70], ", ".join(sorted(computed_from))[:80]))
                 break
     return out
 
